@@ -302,6 +302,32 @@ def xaStep (s : St) (w : List String) : St × String :=
     | none => (s, "bad-op")
   | _ => (s, "bad-op")
 
+/-- one `mpt_array_push` data call; `failAt` = index of the allocation refused inside it (0 = none); `isNew` = the
+    bytes come from the script now (else: the pending rest of an earlier push).  What was not taken stays pending
+    for `apush more`, so the message is what the script handed over, however much each call took; only where the
+    frame or the admission depends on it (ZPE data with a zero, command text with a zero) the outcomes are listed. -/
+def apushData (s : St) (bytes : List Byte) (failAt : Nat) (isNew : Bool) : St × String :=
+  let drvErr (r : Int) : String := errName r
+  let res := if failAt = 0 then arrayPush s.codec mallocFill s.arr (some bytes)
+             else arrayPushF s.codec mallocFill failAt s.arr (some bytes)
+  let zero := bytes.contains 0
+  let refuse := match s.codec with | .command => zero | _ => false
+  let alts := match s.codec with
+    | .command => if zero then (if failAt = 0 then "refused ret=BadEncoding ; *" else "* ; * || * ; *") else "* ; *"
+    | .cobs v => if v.isZpe ∧ zero then "* ; * || * ; *" else "* ; *"
+  let s := if isNew ∧ !refuse then { s with sbytes := s.sbytes ++ bytes } else s
+  match res with
+  | .ok (a, ret, cons) =>
+    let buf := a.buf.getD []
+    let taken := cons.foldl (· + ·) 0
+    -- marks: one piece per encoder call
+    let marks := (cons.foldl (fun (acc : List (Byte × Bool) × List Byte) k =>
+      (acc.1 ++ markChunk (acc.2.take k), acc.2.drop k)) ([], bytes)).1
+    let s' := { s with arr := a, cur := s.cur ++ marks, pending := if refuse then [] else bytes.drop taken }
+    let r := if ret < 0 then s!"refused ret={drvErr ret}" else s!"ok ret={ret}"
+    (s', s!"R {r} | C {toHex (buf.take a.st.done)} | I used={a.used} scratch={a.st.scratch} cap={buf.length} taken={taken} | S {alts}")
+  | x => ({ s with pending := if refuse then [] else bytes }, s!"R refused ret={resName x} | C - | I - | S {alts}")
+
 def step (s : St) (w : List String) : St × String :=
   match w with
   | "dec" :: "new" :: name :: segw =>
@@ -423,28 +449,37 @@ def step (s : St) (w : List String) : St × String :=
     | none => (s, "bad-op")
   | ["apush", "push", dat] =>
     match parseHex dat with
-    | some bytes =>
-      if bytes.isEmpty then (s, "bad-op") else
-      match arrayPush s.codec mallocFill s.arr (some bytes) with
-      | .ok (a, ret, cons) =>
+    | some bytes => if bytes.isEmpty then (s, "bad-op") else apushData s bytes 0 true
+    | none => (s, "bad-op")
+  | ["apush", "more"] =>
+    if s.pending.isEmpty then (s, "R idle | C - | I - | S * ; *") else apushData s s.pending 0 false
+  | ["apush", "failpush", kk, dat] =>
+    -- the kk-th allocation inside this mpt_array_push call is refused
+    match kk.toNat?, parseHex dat with
+    | some k, some bytes => if bytes.isEmpty ∨ k = 0 then (s, "bad-op") else apushData s bytes k true
+    | _, _ => (s, "bad-op")
+  | ["apush", "failterm", kk] =>
+    match kk.toNat? with
+    | some k =>
+      if k = 0 then (s, "bad-op") else
+      -- a refused allocation may make the termination fail (nothing changes then) or not be needed at all
+      let (alts, w) := termAlts s none
+      let alts := alts ++ " || pending ; *"
+      if !s.pending.isEmpty then (s, s!"R pending | C - | I - | S {alts}") else
+      match arrayPushF s.codec mallocFill k s.arr none with
+      | .ok (a, ret, _) =>
         let buf := a.buf.getD []
-        let taken := cons.foldl (· + ·) 0
-        -- marks: one piece per encoder call
-        let marks := (cons.foldl (fun (acc : List (Byte × Bool) × List Byte) k =>
-          (acc.1 ++ markChunk (acc.2.take k), acc.2.drop k)) ([], bytes)).1
-        -- the array grows as needed: the whole push belongs to the message (command text: nothing of a
-        -- push containing a zero); anything else leaves the spec state open (two alternatives)
-        let alts := match s.codec, bytes.contains 0 with
-          | .command, true => "refused ret=BadEncoding ; *"
-          | .cobs v, z => if (v.isZpe ∧ z) ∨ taken ≠ bytes.length then "* ; * || * ; *" else "* ; *"
-          | .command, false => if taken ≠ bytes.length then "* ; * || * ; *" else "* ; *"
-        let s' := { s with arr := a, cur := s.cur ++ marks, sbytes := s.sbytes ++ bytes.take taken }
+        let s' := if ret ≥ 0 then { s with arr := a, wire := w, cur := [], sbytes := [], haveFrame := true, lastMsg := s.sbytes,
+                                           lastStart := s.lastEnd, lastEnd := a.st.done }
+                  else { s with arr := a }
         let r := if ret < 0 then s!"refused ret={drvErr ret}" else s!"ok ret={ret}"
-        (s', s!"R {r} | C {toHex (buf.take a.st.done)} | I used={a.used} scratch={a.st.scratch} cap={buf.length} taken={taken} | S {alts}")
+        (s', s!"R {r} | C {toHex (buf.take a.st.done)} | I used={a.used} scratch={a.st.scratch} cap={buf.length} taken=0 | S {alts} || refused ret=BadOperation ; * || refused ret=MissingBuffer ; *")
       | x => (s, s!"R refused ret={resName x} | C - | I - | S * ; * || * ; *")
     | none => (s, "bad-op")
   | ["apush", "term"] =>
     let (alts, w) := termAlts s none
+    let alts := alts ++ " || pending ; *"
+    if !s.pending.isEmpty then (s, s!"R pending | C - | I - | S {alts}") else
     -- the array provides the space: the spec demands success, so the spec state moves on whatever happened
     let sp := { s with wire := w, cur := [], sbytes := [], haveFrame := true, lastMsg := s.sbytes }
     match arrayPush s.codec mallocFill s.arr none with
